@@ -56,14 +56,11 @@ Qed.
 
 (* ---------- the loops of removal as flat_maps ---------- *)
 Definition keep_item (s : schema) (T : pset) (t : listT) (x : value) : list value :=
-  match list_item_to_pe s t x with
-  | None => [x]
-  | Some e =>
-      if ps_has [e] T then []
-      else if negb (ps_empty (ps_with_prefix e T))
-           then [remove_items s false (list_elem t) (ps_with_prefix e T) x]
-           else [x]
-  end.
+  let e := list_item_pe_or_zero s t x in
+  if ps_has [e] T then []
+  else if negb (ps_empty (ps_with_prefix e T))
+       then [remove_items s false (list_elem t) (ps_with_prefix e T) x]
+       else [x].
 
 Lemma rm_list_go_flat : forall s T t l, rm_list_go s false T t l = flat_map (keep_item s T t) l.
 Proof.
@@ -72,11 +69,10 @@ Proof.
   change (flat_map (keep_item s T t) (x :: l))
     with (keep_item s T t x ++ flat_map (keep_item s T t) l).
   generalize (flat_map (keep_item s T t) l). intros rest.
-  unfold rm_list_step, keep_item, rm_has, rm_subset.
-  destruct (list_item_to_pe s t x) as [e|].
-  - destruct (ps_has [e] T); [reflexivity|].
-    destruct (ps_empty (ps_with_prefix e T)); reflexivity.
-  - reflexivity.
+  unfold rm_list_step, keep_item, rm_has, rm_subset. cbv zeta.
+  set (e := list_item_pe_or_zero s t x).
+  destruct (ps_has [e] T); [reflexivity|].
+  destruct (ps_empty (ps_with_prefix e T)); reflexivity.
 Qed.
 
 Definition kept_value (s : schema) (T : pset) (t : mapT) (k : string) (c : value) : value :=
@@ -291,6 +287,16 @@ Proof.
   split; [apply Hc|]. intros e He. apply distinct_occ; auto.
 Qed.
 
+(* the members of a conforming associative list all have a path element *)
+Lemma conforms_list_has_pe : forall s tr sc t ma l,
+  resolve s tr = Some (Atom sc (Some t) ma) -> conforms s tr false (VList l) = true ->
+  rel_is_assoc (list_rel t) = true -> forallb (has_pe s t) l = true.
+Proof.
+  intros s tr sc t ma l Hr Hc Has. rewrite conforms_eq, Hr in Hc.
+  destruct (list_rel t); try discriminate.
+  apply andb_true_iff in Hc. destruct Hc as [Hc _]. apply andb_true_iff in Hc. apply Hc.
+Qed.
+
 Section AbsentMain.
   Variables (s : schema) (R : typeref -> Prop).
   Hypothesis Hok : schema_ok s R.
@@ -333,15 +339,21 @@ Section AbsentMain.
       destruct (conforms_list_inv s tr sc t ma l Er Hc Hiw) as [Hconf Hocc].
       assert (Hstab : forall x y, In x l -> In y (keep_item s T t x) ->
                 forall ey, list_item_to_pe s t y = Some ey -> list_item_to_pe s t x = Some ey).
-      { intros x y Hx Hy ey Hey. unfold keep_item in Hy.
+      { intros x y Hx Hy ey Hey.
         destruct (list_item_to_pe s t x) as [ex|] eqn:Ex.
-        - destruct (ps_has [ex] T) eqn:Eh; [contradiction|].
+        - unfold keep_item in Hy. rewrite (list_item_pe_or_zero_some s t x ex Ex) in Hy.
+          cbv zeta in Hy.
+          destruct (ps_has [ex] T) eqn:Eh; [contradiction|].
           destruct (negb (ps_empty (ps_with_prefix ex T))).
           + destruct Hy as [<-|[]].
             destruct (keep_pe_stable s t x ex T HT Hkc Ex (Hiw x ex Hx Ex) Eh) as [H|H];
               rewrite H in Hey; [discriminate|exact Hey].
           + destruct Hy as [<-|[]]. rewrite Ex in Hey. exact Hey.
-        - destruct Hy as [<-|[]]. rewrite Ex in Hey. discriminate. }
+        - exfalso. destruct (rel_is_assoc (list_rel t)) eqn:Eas.
+          + pose proof (conforms_list_has_pe s tr sc t ma l Er Hc Eas) as Hhp.
+            rewrite forallb_forall in Hhp. specialize (Hhp x Hx). unfold has_pe in Hhp.
+            rewrite Ex in Hhp. discriminate.
+          + rewrite (lipe_nonassoc s t y Eas) in Hey. discriminate. }
       assert (Hiw' : items_wf s t items').
       { intros y ey Hy Hey. unfold items' in Hy. apply in_flat_map in Hy.
         destruct Hy as (x & Hx & Hy). apply (Hiw x ey Hx). eapply Hstab; eauto. }
@@ -365,7 +377,7 @@ Section AbsentMain.
       assert (Hhas0 : ps_has (ex0 :: rest) T = true).
       { rewrite <- Hhas. apply ps_has_patheqb; auto; try (apply wf_path_cons; auto).
         simpl. rewrite Hm0. apply patheqb_refl. exact Hrest. }
-      unfold keep_item. rewrite Ex0.
+      unfold keep_item. rewrite (list_item_pe_or_zero_some s t x0 ex0 Ex0). cbv zeta.
       destruct (ps_has [ex0] T) eqn:Eh0; [reflexivity|].
       destruct rest as [|r0 rest']; [congruence|].
       destruct (ps_with_prefix_spec ex0 T HT Hwx0) as [HT' Hw].
